@@ -215,6 +215,14 @@ Proof.
   - rewrite out_all_cons, IH. reflexivity.
 Qed.
 
+(* aggregators are values: a stat that occurs twice in the list (the same Column object passed twice to agg(), or
+   under an alias) yields the same output twice, each equal to what the stat yields alone *)
+Corollary out_all_twice Row O (p : packed Row O) (l : list (packed Row O)) rows :
+  a_out (agg_all (p :: p :: l)) (a_fold (agg_all (p :: p :: l)) rows) =
+  a_out (p_agg p) (a_fold (p_agg p) rows) :: a_out (p_agg p) (a_fold (p_agg p) rows)
+  :: a_out (agg_all l) (a_fold (agg_all l) rows).
+Proof. rewrite !out_all. reflexivity. Qed.
+
 (** * Pivot slots *)
 Section PivotLaws.
   Variables (Row P S O : Type).
